@@ -74,6 +74,24 @@ CLAIMED = {
         note=TB + "No axioms. The group-by-group equivalence with the declarative simple-schema semantics is checked by the oracle, not yet proved.",
         tech="Rocq proof (chain soundness, nil handling) + typed-value correspondence + exact oracle",
         ref="DESIGN.md 5/C16"),
+    "C18": dict(
+        text="Coq theorems over the model of post.ApplyDefaults on the schemata bookkeeping of a result: a member is added exactly when it "
+             "is absent and a schema recorded for (object, member) declares a default, the value is the first such default, it is added "
+             "once, present members keep key and value, nothing else appears; the (object, member) records survive every merge variant. "
+             "Tie: data after Validate + ApplyDefaults compared with the model on generated object schemas/instances; declarative oracle "
+             "(properties / items / allOf / additionalProperties reading of the schema) on valid cases without alternatives.",
+        note=TB + "No axioms. That the records equal the declaratively applicable schemas through every keyword is checked by the oracle "
+             "and the tie, not yet proved end to end. Object identity = position in the instance tree.",
+        tech="Rocq proof (post-processing exactness over the result bookkeeping) + data correspondence + declarative oracle",
+        ref="DESIGN.md 5/C18"),
+    "C19": dict(
+        text="Coq theorems over the model of post.Prune: after pruning, the members of an object are exactly those with a recorded schema, "
+             "in order; a member remains iff it was present and described; records are created by mergeForField and survive merges. "
+             "Tie: data after Validate + Prune compared with the model; oracle: pruning only removes, removes exactly the undescribed "
+             "members on the class without alternatives, and pruning the pruned data again removes nothing (no anyOf/oneOf).",
+        note=TB + "No axioms. Idempotence across a second validation is checked on the implementation, not proved.",
+        tech="Rocq proof (prune exactness over the result bookkeeping) + data correspondence + declarative oracle",
+        ref="DESIGN.md 5/C19"),
 }
 
 checks = []
